@@ -266,15 +266,22 @@ class Fuzz(Stage):
         self.note = note
 
     def jobs(self, ctx):
+        import subprocess
         fdir = os.path.join(ctx.root, "fuzz")
         env = ctx.cargo_env()
-        env["__cwd"] = fdir
+        env["__cwd"] = ctx.harness  # cargo-fuzz wants to start inside a cargo project
         outpath = os.path.join(ctx.rundir, f"{self.name}-0.json")
         corpus = os.path.join(fdir, "corpus", self.target)
         os.makedirs(corpus, exist_ok=True)
-        cmd = ["cargo", "+nightly", "fuzz", "run", self.target, corpus, "--", f"-max_total_time={self.seconds}", "-timeout=10",
+        lock = os.path.join(fdir, "Cargo.lock")
+        if not os.path.exists(lock):
+            import shutil
+            shutil.copy("/repo/Cargo.lock", lock)
+        # seed corpus: valid serialisations of every kind from every backend
+        subprocess.run([ctx.binary, "fuzzseeds", corpus, "--seed", str(ctx.seed)], check=False)
+        cmd = ["cargo", "+nightly", "fuzz", "run", "--fuzz-dir", fdir, self.target, corpus, "--", f"-max_total_time={self.seconds}", "-timeout=10",
                f"-fork={ctx.ncpu}", "-len_control=0", "-max_len=1200", "-ignore_crashes=0", f"-seed={ctx.seed}"]
-        return [("0", cmd, env, outpath, self.seconds + 1200)]
+        return [("0", cmd, env, outpath, self.seconds + 1800)]
 
     def classify(self, ctx, label, rc, outpath, logpath):
         import re, json as _json
@@ -310,9 +317,37 @@ def c03(ctx):
     return [SelfTest(), Native("differential", "c03")]
 
 
+class NativeRelease(Native):
+    """same monitor, plain release profile (no debug assertions / overflow checks): verdicts can flip between profiles"""
+    tool = "native (plain release profile)"
+
+    def jobs(self, ctx):
+        self._bin = ctx.build("release", ctx.rundir)
+        if self._bin is None:
+            return [("build-failed", ["false"], dict(os.environ), None, 10)]
+        return super().jobs(ctx)
+
+    def base_cmd(self, ctx):
+        return [self._bin]
+
+
 def c04(ctx):
-    return [Native("hostile-native", "c04", crash_sig="C04|process|abort-or-signal", timeout=7200,
-                   note="monitor profile (release + debug assertions + overflow checks), catch_unwind per case, process status per shard")]
+    crash = "C04|process|abort-or-signal"
+    return [
+        Native("hostile-native", "c04", crash_sig=crash, timeout=7200,
+               note="monitor profile (release + debug assertions + overflow checks), catch_unwind per case, process status per shard"),
+        NativeRelease("hostile-release", "c04", crash_sig=crash, timeout=7200, thorough_only=True,
+                      note="the same workload in the plain release profile"),
+        Miri("miri-parsers", "c04", ["--backend", "v4,v2", "--scale", "0.004"], shards=16, prop="C04",
+             note="hostile parser workload on the Ed25519 RustCrypto backends + paseto-core under Miri (base64 unsafe, zerocopy prefix parsing)"),
+        Valgrind("memcheck-ffi", "c04", ["--backend", "v3lc,v4na", "--scale", "0.25"], prop="C04",
+                 note="hostile workload on the aws-lc and libsodium backends under memcheck with leak checking (LcPtr/DetachableLcPtr ownership, set_len after BN_bn2bin)"),
+        Valgrind("memcheck-keys", "c08", ["--backend", "v3lc,v4na", "--scale", "0.15"], prop="C04",
+                 note="key parse / clone / drop / sign / verify storms on the FFI backends under memcheck"),
+        Valgrind("memcheck-tokens", "c02", ["--backend", "v3lc"], prop="C04",
+                 note="every corrupted signature through lc::Signature::from_bytes and ECDSA_verify under memcheck"),
+        Fuzz("libfuzzer-asan", "parsers", seconds=300, note="coverage-guided libFuzzer + AddressSanitizer over all backends x all FromStr instantiations, same oracle"),
+    ]
 
 
 def c05(ctx):
@@ -332,7 +367,9 @@ def c08(ctx):
 
 
 def c09(ctx):
-    return [Native("strings", "c09")]
+    return [Native("strings", "c09"),
+            Miri("miri-base64", "c09", ["--backend", "v4", "--scale", "0.0004"], shards=16, prop="C09",
+                 note="the string workload over paseto-core's base64 (from_utf8_unchecked, fixed-buffer decode) under Miri")]
 
 
 def c10(ctx):
@@ -356,7 +393,8 @@ def c14(ctx):
 
 
 def c15(ctx):
-    return [Native("pae", "c15")]
+    return [Native("pae", "c15"),
+            Miri("miri-pae", "c15", ["--scale", "0.004"], shards=8, prop="C15", note="PAE workload under Miri")]
 
 
 def c16(ctx):
